@@ -35,6 +35,10 @@ func corpus() []Input {
 			Phases: []Phase{
 				{Writers: []Writer{{Label: "A", Ops: []Op{{"upd", 1}, {"upd", 7}}}}, Schedule: []string{"A!plog.Remove"}},
 				{Writers: nil, Schedule: []string{"prio"}}}},
+		// the last lock check finds the locks gone and somebody else holding them: re-lock fails, rollback() undoes the claim
+		{Kind: "corpus", Name: "relock-fails-rollback-undoes-claim", Slot: 4, Init: seqKeys(1, 3),
+			Phases: []Phase{{Writers: []Writer{{Label: "A", Ops: []Op{{"upd", 1}}, MaxTimeMs: 150}, {Label: "B", Ops: []Op{{"upd", 2}}}},
+				Schedule: []string{"A@plog.Add", "sleep:400", "B@tlog.Add:step5", "A*", "B*"}}}},
 		// ---- findings
 		{Kind: "corpus", Name: "lock-expiry-two-successors", Slot: 4, Init: seqKeys(1, 3), Expect: "two-successors-of-one-version:lock-expired-mid-commit",
 			Phases: []Phase{{Writers: []Writer{{Label: "A", Ops: []Op{{"upd", 1}}, MaxTimeMs: 150}, {Label: "B", Ops: []Op{{"upd", 2}}}},
@@ -86,7 +90,7 @@ func generate(cfg *hx.RunCfg) []Input {
 	if n == 0 {
 		n = 22
 		if cfg.Tier == "thorough" {
-			n = 400
+			n = 600
 		}
 	}
 	labels := []string{"A", "B", "C"}
